@@ -149,7 +149,7 @@ Theorem splitPeriod_structure_gen w pph seg mode cont ast snr st now ases ps :
   let k0 := (st - ast) / (P * 1000) in
   let k1 := (now - ast) / (P * 1000) in
   (P * 1000) mod seg = 0 /\
-  exists ka kb, rangeOf w mode P ases k0 k1 (k0 - 1) (kmaxOf w P ast now k1) = Ok (ka, kb) /\
+  exists ka kb, rangeOf w mode P ases k0 k1 (kminOf w P ast st k0) (kmaxOf w P ast now k1) = Ok (ka, kb) /\
   Forall2 (fun k p => pd_nr p = k /\ pd_start p = k * P /\
                       Forall2 (fun a o => splitAS false mode cont snr k P a = Ok o) ases (pd_as p))
           (seqZ ka (Z.to_nat (kb - ka + 1))) ps.
@@ -165,7 +165,7 @@ Proof.
   replace (P * 1000 =? 0) with false in H by lia.
   rewrite (quot_pos (st - ast)), (quot_pos (now - ast)) in H by lia. fold k0 k1 in H.
   cbv zeta in H.
-  destruct (rangeOf w mode P ases k0 k1 (k0 - 1) (kmaxOf w P ast now k1)) as [[ka kb]| |] eqn:ER; cbn [bind fst snd] in H; try discriminate.
+  destruct (rangeOf w mode P ases k0 k1 (kminOf w P ast st k0) (kmaxOf w P ast now k1)) as [[ka kb]| |] eqn:ER; cbn [bind fst snd] in H; try discriminate.
   destruct (kb - ka + 1 <? 0) eqn:E2; [discriminate|].
   split; [lia|]. exists ka, kb. split; [reflexivity|].
   apply mapM_ok in H.
